@@ -551,6 +551,20 @@ fn fuzz(cfgv: &Value, wc: WorldCfg, out: &mut impl Write) {
                 if let Some(pp) = p { ev["panic"] = json!(pp); }
                 if b.len() <= 300 { ev["hex"] = json!(b.iter().map(|x| format!("{x:02x}")).collect::<String>()); }
                 writeln!(out, "{}", ev).unwrap();
+                // after a structure-aware datagram, half of the time a well-formed SYN with an EMPTY digest
+                // follows: the victim then has to serialise every copy it holds (whatever the hostile
+                // operations left in them) into its reply
+                if kind == 9 && rng.random_bool(0.5) {
+                    let probe = vharness::codec::encode_default(&vharness::codec::WMsg::Syn { cluster: "c".into(), digest: vec![] });
+                    let (decoded, reply, p) = run.world.deliver(&n, &probe);
+                    if let Some(rb) = reply { pool.push(rb); }
+                    let post = run.world.project(&n);
+                    let mut ev = json!({"a": "Recv", "n": n, "len": probe.len(), "kind": 10, "decoded": decoded,
+                        "codec_decoded": true, "clock": run.world.now_ticks(), "post": post});
+                    if let Some(pp) = p { ev["panic"] = json!(pp); }
+                    ev["hex"] = json!(probe.iter().map(|x| format!("{x:02x}")).collect::<String>());
+                    writeln!(out, "{}", ev).unwrap();
+                }
             }
         }
     }
